@@ -1,7 +1,7 @@
 from checks_common import *
 
 CHECK = dict(
-    src=['harness/c07_msgpack_read.cpp'], variants=[P], level='exploration',
+    src=['harness/c07_msgpack_read.cpp'], variants=[P, S16], level='exploration',
     technique='bounded exhaustive enumeration of encodings (all format alternatives, deviation-bounded for composites), truncations and single-byte corruptions, executed on the real readers, judged by a reference decoder',
     level_text='Every execution runs the real MsgPack string and stream readers. Complete within the stated alphabets and bounds: all encodings of all alphabet values into all compatible '
                'targets, all key orders, all truncations and all 255 corruptions per byte position of the corpus. Says nothing about values outside the alphabets or documents outside the corpus.',
